@@ -37,6 +37,14 @@ func TestDialPolicyDoH(t *testing.T) {
 		// cnamed: CNAME to another name
 		rrCNAME("cnamed.example", 60, "canonical.example"),
 		rrA("canonical.example", 60, "10.4.0.1"),
+		// deadtarget: the preferred record names a target that has no addresses (contributes nothing); the next one is in place
+		rrHTTPS("deadtarget.example", 60, 1, "void.example", svcParams{ECH: polLists["E1"], Port: 8451}),
+		rrHTTPS("deadtarget.example", 60, 2, "", svcParams{ECH: polLists["E2"], Port: 8452}),
+		rrA("deadtarget.example", 60, "10.6.0.1"),
+		// deadplain: the same with a preferred record that carries no ech and the default port
+		rrHTTPS("deadplain.example", 60, 1, "void.example", svcParams{ALPN: []string{"h2"}}),
+		rrHTTPS("deadplain.example", 60, 2, "", svcParams{ECH: polLists["E2"]}),
+		rrA("deadplain.example", 60, "10.7.0.1"),
 		// noech: service record without ech
 		rrHTTPS("noech.example", 60, 1, "", svcParams{ALPN: []string{"h2"}}),
 		rrA("noech.example", 60, "10.5.0.1"),
@@ -46,10 +54,11 @@ func TestDialPolicyDoH(t *testing.T) {
 	// address -> abstract ECH value its record carries
 	recECH := map[string]string{
 		"10.1.0.1:443": "nil", "10.2.0.9:8441": "E1", "10.2.0.1:8442": "E2", "10.3.0.1:443": "E1", "10.4.0.1:443": "nil", "10.5.0.1:443": "nil",
+		"10.6.0.1:8452": "E2", "10.7.0.1:443": "E2",
 	}
 	w := newNDWriter(t, out)
 	defer w.Close()
-	for _, host := range []string{"plain.example", "svc.example", "aliased.example", "cnamed.example", "noech.example"} {
+	for _, host := range []string{"plain.example", "svc.example", "aliased.example", "cnamed.example", "noech.example", "deadtarget.example", "deadplain.example"} {
 		for _, form := range []string{"host", "hostport"} {
 			for _, csn := range []string{"", "caller-sn.example"} {
 				for _, cech := range []string{"nil", "Ec"} {
